@@ -320,6 +320,11 @@ class DictBuilder:
     def conds(self) -> CondSet:
         return frozenset(self.stack)
 
+    @property
+    def all_conds(self) -> CondSet:
+        """Conditions in scope including those established by guard clauses (`if not c: return` puts c in force for the rest)."""
+        return frozenset(self.stack) | frozenset(self.ambient)
+
     def _push(self, c: CondSet) -> int:
         n = len(self.stack)
         for a in sorted(c):
@@ -578,7 +583,7 @@ class DictBuilder:
             path = tuple(self.key_elem(k) for k in keys)
             v = self.eval_value(value)
             self._note_val(v)
-            self.store(tree, path, v, self.conds)
+            self.store(tree, path, v, self.all_conds)
             return
         v = self.eval_value(value)
         self._note_val(v)
@@ -591,9 +596,9 @@ class DictBuilder:
             if name in self.trees:  # rebinding under another condition: same logical result object
                 tree = self.trees[name]
             self.trees[name] = tree
-            self.store(tree, (), v, self.conds)
+            self.store(tree, (), v, self.all_conds)
             if is_attr:
-                self.attr_stores.append((name, self.conds, self.subst(value), stmt))
+                self.attr_stores.append((name, self.all_conds, self.subst(value), stmt))
             elif isinstance(value, ast.Dict):
                 # keep the literal as a value alternative too: `d = {...}` followed by a conditional `d = state[...]`
                 self.bind(name, self.subst(value))
@@ -601,7 +606,7 @@ class DictBuilder:
                 self.env.pop(name, None)
             return
         if is_attr:
-            self.attr_stores.append((name, self.conds, v.expr, stmt))
+            self.attr_stores.append((name, self.all_conds, v.expr, stmt))
             if self.alias_params and isinstance(value, ast.Name) and value.id in self.params:
                 self.bind(value.id, ast.Attribute(value=ast.Name(id="self", ctx=ast.Load()), attr=target.attr, ctx=ast.Load()))
             # `self.cached = self.default_observation`: the attribute shares the tracked tree
@@ -639,7 +644,7 @@ class DictBuilder:
                 old = self.read_name(s.target.id) if s.target.id in self.env else ast.Name(id=s.target.id, ctx=ast.Load())
                 self.bind(s.target.id, ast.BinOp(left=old, op=s.op, right=self.subst(s.value)))
             elif r and r.startswith("self."):
-                self.attr_stores.append((r, self.conds, None, s))
+                self.attr_stores.append((r, self.all_conds, None, s))
             elif isinstance(s.target, ast.Subscript):
                 root, _ = self._subscript_target(s.target)
                 if self._tree_for(root) is not None:
@@ -722,7 +727,7 @@ class DictBuilder:
                         v = self.eval_value(v.expr)
                     else:
                         raise AnalysisError(f"{self.fn.short}: cannot enumerate the keys added by {unparse(e)[:70]}")
-                self.store(tree, tuple(self.key_elem(k) for k in keys), v, self.conds, merge=True)
+                self.store(tree, tuple(self.key_elem(k) for k in keys), v, self.all_conds, merge=True)
                 return False
             if tree is not None and meth in ("pop", "clear", "setdefault", "popitem"):
                 raise AnalysisError(f"{self.fn.short}: {unparse(e)[:60]} on a tracked dict is not modelled")
